@@ -96,6 +96,7 @@ def faults():
         F[f'hypernym-dangling:{ssid}'] = lambda L, ssid=ssid: _addrel(_synset(L, P + ssid), mk.rel(P + 'nope', 'hypernym'))
     F['synset-rel-to-sense'] = lambda L: _addrel(_synset(L, P + 'ss1'), mk.rel(P + 's2', 'also'))
     F['empty-synset'] = lambda L: L['synsets'].append(mk.synset(P + 'ss9', 'n', ''))
+    F['empty-synset-with-stale-members'] = lambda L: L['synsets'].append(mk.synset(P + 'ss9', 'n', '', members=[P + 's1', P + 's2']))
     F['entry-without-senses'] = lambda L: L['entries'].append(mk.entry(P + 'e9', 'nine', 'n'))
     F['redundant-sense'] = lambda L: _entry(L, P + 'e1')['senses'].append(mk.sense(P + 's8', P + 'ss1'))
     F['redundant-entry'] = lambda L: L['entries'].append(mk.entry(P + 'e8', 'one', 'n', senses=[mk.sense(P + 's7', P + 'ss1')]))
@@ -317,6 +318,23 @@ def check(case):
                 anyitem = any(ref[c] for c in CODES)
                 if code != (1 if anyitem else 0):
                     V.append(('cli:exit-status', f'[{tag}] exit status {code!r}, items reported: {anyitem}; output {out[:200]!r}', None, one))
+                # several lexicons in one file: the status is 1 iff any of them has an item
+                clean = mk.lexicon('vc', '1', entries=[mk.entry('vc-e', 'c', 'n', senses=[mk.sense('vc-s', 'vc-ss')])],
+                                   synsets=[mk.synset('vc-ss', 'n', '', definitions=['clean'])])
+                for layout, lexs in (('faulty-clean', [L, clean]), ('clean-faulty', [clean, L]),
+                                     ('faulty-clean-clean', [L, clean, dict(copy.deepcopy(clean), version='2')])):
+                    n += 1
+                    lx2 = copy.deepcopy(lexs)
+                    if len(lx2) == 3:
+                        # ids must stay unique in the file
+                        third = mk.lexicon('vd', '1', entries=[mk.entry('vd-e', 'd', 'n', senses=[mk.sense('vd-s', 'vd-ss')])],
+                                           synsets=[mk.synset('vd-ss', 'n', '', definitions=['clean too'])])
+                        lx2[2] = third
+                    f2 = env.write_file(f'v-{layout}.xml', xmlw.serialize(mk.resource(lx2, '1.3')), d)
+                    code, out = run_cli(f2)
+                    if code != (1 if anyitem else 0):
+                        V.append((f'cli:exit-status:multi-lexicon:{layout}', f'[{tag}] exit status {code!r}, items reported: '
+                                  f'{anyitem}; output {out[:200]!r}', None, one))
         return {'v': V, 'digs': set(digs), 'nt': len(set(digs)), 'n': n}
     finally:
         env.drop_db(dbdir)
